@@ -1,0 +1,17 @@
+// Copyright (C) 2026 Storj Labs, Inc.
+// See LICENSE for copying information.
+
+//go:build verif
+// +build verif
+
+package drpcwire
+
+// VerifBufCap reports, for external verification harnesses, the capacity of
+// the reader's internal buffers.
+func (r *Reader) VerifBufCap() int {
+	n := cap(r.buf)
+	if cap(r.curr) > n {
+		n = cap(r.curr)
+	}
+	return n
+}
